@@ -113,7 +113,10 @@ func ParseVerbatim(s string, architecture string) (Channel, error) {
 		ch.Risk = *risk
 	}
 	if track != nil {
-		if *track == "" {
+		// a risk name cannot be a track: "<risk>/<x>" always means
+		// risk/branch, so such a track could not be printed back, kept by
+		// Resolve or recognised by ResolvePinned
+		if *track == "" || strutil.ListContains(channelRisks, *track) {
 			return Channel{}, fmt.Errorf("invalid track in channel name: %s", s)
 		}
 		ch.Track = *track
